@@ -266,7 +266,21 @@ func (w *World) Replay(base int, evs []Ev, r *rand.Rand) ([]Line, error) {
 		ln.Conc = conc
 		switch e.Op {
 		case "psignout":
-			resp, _, err := w.to(b, "GET", "http://"+appHost+"/oauth2/sign_out", nil, nil)
+			// whatever the visitor appends to the sign-out URL, the return address is on the same host
+			extra := ""
+			if r.Intn(2) == 0 {
+				q := url.Values{}
+				for _, k := range []string{"rd", "redirect_uri", "redirect", "next", "return_to", "url"} {
+					if r.Intn(3) == 0 {
+						q.Set(k, pick(r, "//other.root.test/signed-out", "//evil.test/x", "https://evil.test/", "https://other.root.test/", "/%2F%2Fother.root.test/", "/plain/path", "///other.root.test", "\\\\other.root.test"))
+					}
+				}
+				if len(q) > 0 {
+					extra = "?" + q.Encode()
+				}
+			}
+			conc["query"] = extra
+			resp, _, err := w.to(b, "GET", "http://"+appHost+"/oauth2/sign_out"+extra, nil, nil)
 			if err != nil {
 				return nil, err
 			}
